@@ -1,0 +1,155 @@
+//! Verification seams, compiled only with `--cfg cel_verif`.
+//!
+//! Nothing in here changes what the interpreter computes. Until a harness installs
+//! a hook every function below is a no-op (one relaxed atomic load).
+//!
+//! * [`point`] is called by the evaluator at the places where an execution can be
+//!   interleaved with another thread's execution in a way that matters (before each
+//!   AST node, at function dispatch, at variable lookup, before the copy-on-write
+//!   test of list/string concatenation). A deterministic-simulation harness parks
+//!   the calling thread there and decides who runs next.
+//! * [`buggify`] lets the harness force a legal-but-unusual path (today: take the
+//!   copying path of concatenation although the buffer is uniquely owned).
+//! * [`SimHashState`] (only with `--cfg cel_verif_hash`) replaces `RandomState` as the
+//!   hasher of `Value::Map`, so map iteration order is a function of a seed the
+//!   harness sets instead of per-process OS randomness.
+use std::sync::atomic::{AtomicU64, AtomicUsize, Ordering};
+
+/// Before every AST node (`Value::resolve`). `aux` = node kind.
+pub const SITE_RESOLVE: u32 = 0;
+/// Immediately before a registered function is invoked. `aux` = 0 global call, 1 receiver call.
+pub const SITE_CALL: u32 = 1;
+/// Entry of `Context::get_variable`. `aux` = 0 root scope, 1 child scope.
+pub const SITE_LOOKUP: u32 = 2;
+/// List `+`: operands obtained, uniqueness of the left buffer not yet tested. `aux` = strong count.
+pub const SITE_APPEND_LIST: u32 = 3;
+/// String `+`: same as above for strings.
+pub const SITE_APPEND_STR: u32 = 4;
+/// A comprehension is about to iterate a map's keys. `aux` = number of keys.
+pub const SITE_MAP_ITER: u32 = 5;
+/// Number of sites.
+pub const N_SITES: usize = 6;
+
+pub const KIND_LITERAL: u64 = 0;
+pub const KIND_CALL: u64 = 1;
+pub const KIND_IDENT: u64 = 2;
+pub const KIND_SELECT: u64 = 3;
+pub const KIND_LIST: u64 = 4;
+pub const KIND_MAP: u64 = 5;
+pub const KIND_COMPREHENSION: u64 = 6;
+pub const KIND_OTHER: u64 = 7;
+
+pub type SchedHook = fn(site: u32, aux: u64);
+pub type BuggifyHook = fn(site: u32) -> bool;
+
+static SCHED_HOOK: AtomicUsize = AtomicUsize::new(0);
+static BUGGIFY_HOOK: AtomicUsize = AtomicUsize::new(0);
+static HASH_SEED: AtomicU64 = AtomicU64::new(0);
+
+/// Installs (or removes) the process-wide scheduling hook.
+pub fn set_sched_hook(hook: Option<SchedHook>) {
+    SCHED_HOOK.store(hook.map(|f| f as usize).unwrap_or(0), Ordering::SeqCst);
+}
+
+/// Installs (or removes) the process-wide buggify hook.
+pub fn set_buggify_hook(hook: Option<BuggifyHook>) {
+    BUGGIFY_HOOK.store(hook.map(|f| f as usize).unwrap_or(0), Ordering::SeqCst);
+}
+
+/// Sets the seed used by every `SimHashState` created from now on.
+pub fn set_hash_seed(seed: u64) {
+    HASH_SEED.store(seed, Ordering::SeqCst);
+}
+
+pub fn hash_seed() -> u64 {
+    HASH_SEED.load(Ordering::SeqCst)
+}
+
+#[inline]
+pub(crate) fn point(site: u32, aux: u64) {
+    let raw = SCHED_HOOK.load(Ordering::Relaxed);
+    if raw != 0 {
+        // SAFETY: the only non-zero values ever stored come from a `SchedHook` in `set_sched_hook`.
+        let hook: SchedHook = unsafe { std::mem::transmute::<usize, SchedHook>(raw) };
+        hook(site, aux);
+    }
+}
+
+#[inline]
+pub(crate) fn buggify(site: u32) -> bool {
+    let raw = BUGGIFY_HOOK.load(Ordering::Relaxed);
+    if raw != 0 {
+        // SAFETY: as in `point`.
+        let hook: BuggifyHook = unsafe { std::mem::transmute::<usize, BuggifyHook>(raw) };
+        hook(site)
+    } else {
+        false
+    }
+}
+
+pub(crate) fn kind_of(expr: &cel_parser::ast::Expr) -> u64 {
+    use cel_parser::ast::Expr;
+    match expr {
+        Expr::Literal(_) => KIND_LITERAL,
+        Expr::Call(_) => KIND_CALL,
+        Expr::Ident(_) => KIND_IDENT,
+        Expr::Select(_) => KIND_SELECT,
+        Expr::List(_) => KIND_LIST,
+        Expr::Map(_) => KIND_MAP,
+        Expr::Comprehension(_) => KIND_COMPREHENSION,
+        _ => KIND_OTHER,
+    }
+}
+
+/// Seeded replacement for `std::collections::hash_map::RandomState`.
+#[cfg(cel_verif_hash)]
+#[derive(Clone, Debug)]
+pub struct SimHashState {
+    k0: u64,
+    k1: u64,
+}
+
+#[cfg(cel_verif_hash)]
+impl Default for SimHashState {
+    fn default() -> Self {
+        let s = hash_seed();
+        SimHashState {
+            k0: s ^ 0x736f_6d65_7073_6575,
+            k1: s.rotate_left(29) ^ 0x646f_7261_6e64_6f6d,
+        }
+    }
+}
+
+#[cfg(cel_verif_hash)]
+impl std::hash::BuildHasher for SimHashState {
+    type Hasher = SimHasher;
+    fn build_hasher(&self) -> SimHasher {
+        SimHasher {
+            state: self.k0,
+            key: self.k1,
+        }
+    }
+}
+
+/// A small keyed hasher (FNV-1a style mixing followed by a splitmix finaliser). Quality is
+/// irrelevant here; what matters is that the result is a pure function of (seed, bytes).
+#[cfg(cel_verif_hash)]
+pub struct SimHasher {
+    state: u64,
+    key: u64,
+}
+
+#[cfg(cel_verif_hash)]
+impl std::hash::Hasher for SimHasher {
+    fn write(&mut self, bytes: &[u8]) {
+        for b in bytes {
+            self.state = (self.state ^ (*b as u64)).wrapping_mul(0x0000_0100_0000_01b3);
+        }
+    }
+    fn finish(&self) -> u64 {
+        let mut z = self.state ^ self.key;
+        z = (z ^ (z >> 30)).wrapping_mul(0xbf58_476d_1ce4_e5b9);
+        z = (z ^ (z >> 27)).wrapping_mul(0x94d0_49bb_1331_11eb);
+        z ^ (z >> 31)
+    }
+}
